@@ -130,6 +130,7 @@ structure Cfg where
   fragPathSegment : Bool := true    -- D19: errors under a named fragment get a "fragment at L:C" path element
   keepValueOnError : Bool := true   -- D20: a resolver returning value and error keeps the value in data
   argCountCheckOnly : Bool := true  -- D23: unknown arguments are reported only when the counts differ, and only on object containers
+  opFallbackAnyName : Bool := true  -- D11: a name that matches no operation falls back to the document's only operation
   maxDepth : Nat := 100
 
 structure Env where
@@ -285,14 +286,16 @@ structure Response where
   acc : Acc
 
 /-- `ResolveExecutable`'s choice of operation -/
-def chooseOp (ops : List Op) (name : String) : Option Op :=
+def chooseOp (cfg : Cfg) (ops : List Op) (name : String) : Option Op :=
   match ops.find? (fun o => o.name == name) with
   | some o => some o
-  | none => (match ops with | [o] => some o | _ => none)      -- D11: an unknown name falls back to the only operation
+  | none =>
+    -- the only operation stands in when no name is given (D11: in the pinned tree, whatever name is given)
+    if cfg.opFallbackAnyName || name.isEmpty then (match ops with | [o] => some o | _ => none) else none
 
 /-- the whole request against the root node `rootNode` of static type `rootTy` -/
 def run (env : Env) (ops : List Op) (opName : String) (rootNode : Nat) (rootTy : String → Option String) : Response :=
-  match chooseOp ops opName with
+  match chooseOp env.cfg ops opName with
   | none => { data := some .null, acc := { errs := [⟨[], .noOperation⟩] } }   -- `{"data": null, "errors": […]}`
   | some op =>
     match rootTy op.kind with
